@@ -1365,8 +1365,25 @@ impl Peers {
     ) -> Result<(), Status> {
         if let Some(mut peer) = self.inner.get_mut(&index) {
             let has_reorg = !state.reorg_last_headers.is_empty();
+            // If the request started from a remembered header, no reorg headers are returned
+            // even when the previous proved header is replaced: check the returned headers.
+            let is_forked = peer
+                .state
+                .get_prove_state()
+                .map(|prev| {
+                    let prev_header = prev.get_last_header().header();
+                    state
+                        .get_last_headers()
+                        .iter()
+                        .chain(Some(state.get_last_header().header()))
+                        .any(|header| {
+                            header.number() == prev_header.number()
+                                && header.hash() != prev_header.hash()
+                        })
+                })
+                .unwrap_or(false);
             peer.state = peer.state.take().receive_last_state_proof(state)?;
-            if has_reorg {
+            if has_reorg || is_forked {
                 peer.latest_block_filter_hashes.clear();
             }
         }
